@@ -106,10 +106,15 @@ impl ValidatorAddrsWatch {
     ) {
         let this = self.0.lock().await;
         let mut validator_addrs = this.borrow().clone();
-        let version = validator_addrs
-            .get(&key.public())
-            .map(|x| x.msg.version + 1)
-            .unwrap_or(0);
+        let version = match validator_addrs.get(&key.public()) {
+            // The version space is exhausted: there is no newer announcement to make
+            // (wrapping around would replace the entry with an older one).
+            Some(x) => match x.msg.version.checked_add(1) {
+                Some(version) => version,
+                None => return,
+            },
+            None => 0,
+        };
         let d = Arc::new(key.sign_msg(validator::NetAddress {
             addr,
             version,
